@@ -1,6 +1,451 @@
 package main
 
-func cmdCheck(args []string) int    { return 2 }
-func cmdSelftest(args []string) int { return 2 }
-func cmdReplay(args []string) int   { return 2 }
-func cmdExterns()                   {}
+import (
+	"crypto/sha1"
+	"encoding/json"
+	"flag"
+	"fmt"
+	"os"
+	"os/exec"
+	"path/filepath"
+	"sort"
+	"strconv"
+	"strings"
+	"time"
+
+	"verif/gosym"
+	"verif/smt"
+)
+
+// HarnessSpec names one gosym harness and the bounds it runs under.
+type HarnessSpec struct {
+	Pkg        string   // import path suffix below the module
+	Fn         string   // harness function
+	Reach      []string // labels that must be reached on some feasible path (vacuity witnesses)
+	MaxPaths   int
+	MaxSteps   int
+	Native     string // native replay function ("" = the harness itself)
+	NoReplay   bool   // violations of this harness are confirmed by Native only
+	Bounds     map[string]any
+}
+
+// PropertySpec describes how one property is decided.
+type PropertySpec struct {
+	ID          string
+	Level       string
+	Harnesses   func(tier string) []HarnessSpec
+	Extra       func(ctx *checkCtx) // additional (non-gosym) obligations, e.g. regosym
+	Assumptions []string
+	Rule        string
+	Explanation string
+	TrustedBase []string
+}
+
+type finding struct {
+	Property string `json:"property"`
+	Label    string `json:"label"`
+	Harness  string `json:"harness,omitempty"`
+	Status   string `json:"status"` // known | fixed
+	Commit   string `json:"commit,omitempty"`
+	What     string `json:"what"`
+}
+
+type checkCtx struct {
+	spec       *PropertySpec
+	tier       string
+	seed       int
+	eng        *gosym.Engine
+	t0         time.Time
+	work       string
+	findings   []finding
+	inconcl    []string
+	violations []string // printed VIOLATION lines
+	known      []string
+	evidence   map[string]any
+	samples    []any
+	states     int
+	transitions int
+	replayed   int
+	programs   int
+	disagreements int
+	functions  map[string]bool
+	intrinsics map[string]bool
+	harnessRes []map[string]any
+	nviol      int
+	distinct   map[string]bool
+}
+
+func loadFindings() []finding {
+	b, err := os.ReadFile(filepath.Join(verifDir(), "known_findings.json"))
+	if err != nil {
+		return nil
+	}
+	var f struct {
+		Findings []finding `json:"findings"`
+	}
+	if err := json.Unmarshal(b, &f); err != nil {
+		fmt.Fprintln(os.Stderr, "known_findings.json:", err)
+		os.Exit(2)
+	}
+	return f.Findings
+}
+
+func (c *checkCtx) isKnown(label, harness string) (finding, bool) {
+	for _, f := range c.findings {
+		if f.Status != "known" || f.Property != c.spec.ID || f.Label != label {
+			continue
+		}
+		if f.Harness != "" && f.Harness != harness {
+			continue
+		}
+		return f, true
+	}
+	return finding{}, false
+}
+
+func (c *checkCtx) inconclusive(reason string) {
+	c.inconcl = append(c.inconcl, reason)
+}
+
+func cmdCheck(args []string) int {
+	fs := flag.NewFlagSet("check", flag.ExitOnError)
+	tier := fs.String("tier", os.Getenv("VERIF_TIER"), "quick|thorough")
+	workers := fs.Int("j", 16, "workers")
+	var id string
+	if len(args) > 0 && !strings.HasPrefix(args[0], "-") {
+		id = args[0]
+		args = args[1:]
+	}
+	fs.Parse(args)
+	if id == "" && fs.NArg() > 0 {
+		id = fs.Arg(0)
+	}
+	if *tier == "" {
+		*tier = "quick"
+	}
+	spec := properties[id]
+	if spec == nil {
+		fmt.Fprintf(os.Stderr, "unknown property %q\n", id)
+		return 2
+	}
+	seed, _ := strconv.Atoi(os.Getenv("VERIF_SEED"))
+	c := &checkCtx{spec: spec, tier: *tier, seed: seed, t0: time.Now(), findings: loadFindings(),
+		functions: map[string]bool{}, intrinsics: map[string]bool{}, distinct: map[string]bool{}, evidence: map[string]any{}}
+	c.work = filepath.Join(verifDir(), ".work", fmt.Sprintf("%s-%d", id, os.Getpid()))
+	os.MkdirAll(c.work, 0o755)
+	defer os.RemoveAll(c.work)
+
+	var hs []HarnessSpec
+	if spec.Harnesses != nil {
+		hs = spec.Harnesses(*tier)
+	}
+	if len(hs) > 0 {
+		e, err := loadEngine()
+		if err != nil {
+			fmt.Printf("INCONCLUSIVE property=%s reason=load: %v\n", id, err)
+			c.inconclusive("load: " + err.Error())
+			c.writeEvidence()
+			return 2
+		}
+		c.eng = e
+		for _, h := range hs {
+			c.runHarness(h, *workers)
+		}
+	}
+	if spec.Extra != nil {
+		spec.Extra(c)
+	}
+	c.writeEvidence()
+	for _, k := range c.known {
+		fmt.Println(k)
+	}
+	if len(c.violations) > 0 {
+		for _, v := range c.violations {
+			fmt.Println(v)
+		}
+		return 1
+	}
+	if len(c.inconcl) > 0 {
+		for _, r := range c.inconcl {
+			fmt.Printf("INCONCLUSIVE property=%s reason=%s\n", id, r)
+		}
+		return 2
+	}
+	fmt.Printf("OK property=%s tier=%s states=%d queries=%d wall=%.1fs\n", id, *tier, c.states, smt.StatSat+smt.StatUnsat+smt.StatUnknown, time.Since(c.t0).Seconds())
+	return 0
+}
+
+func (c *checkCtx) runHarness(h HarnessSpec, workers int) {
+	e := c.eng
+	e.Cfg = gosym.DefaultConfig()
+	e.Cfg.Workers = workers
+	if h.MaxPaths > 0 {
+		e.Cfg.MaxPaths = h.MaxPaths
+	}
+	if h.MaxSteps > 0 {
+		e.Cfg.MaxSteps = h.MaxSteps
+	}
+	e.Cfg.PerLabelCap = 3
+	res, err := e.Run(modPath+"/"+h.Pkg, h.Fn)
+	if err != nil {
+		c.inconclusive(fmt.Sprintf("%s: %v", h.Fn, err))
+		return
+	}
+	c.states += res.Paths
+	c.transitions += int(res.Decisions)
+	for f := range res.Functions {
+		c.functions[f] = true
+	}
+	for f := range res.Intrinsics {
+		c.intrinsics[f] = true
+	}
+	hr := map[string]any{"harness": h.Fn, "package": h.Pkg, "paths": res.Paths, "by_status": res.ByStatus, "reach": res.Reach,
+		"decisions": res.Decisions, "ssa_instructions": res.Steps, "wall_s": res.Wall.Seconds(), "bounds": h.Bounds,
+		"violation_counts": res.ViolCount, "max_path_instructions": res.MaxPathSteps}
+	c.harnessRes = append(c.harnessRes, hr)
+	if res.Truncated {
+		c.inconclusive(fmt.Sprintf("%s: path bound %d exceeded (bound-exceeded, not a pass)", h.Fn, e.Cfg.MaxPaths))
+	}
+	for _, u := range res.Unsupported {
+		c.inconclusive(fmt.Sprintf("%s: %s", h.Fn, u))
+	}
+	for _, b := range res.Bound {
+		c.inconclusive(fmt.Sprintf("%s: bound-exceeded: %s", h.Fn, b))
+	}
+	for _, r := range h.Reach {
+		if res.Reach[r] == 0 {
+			c.inconclusive(fmt.Sprintf("%s: vacuous: label %q never reached", h.Fn, r))
+		}
+	}
+	for i, s := range res.Samples {
+		if i >= 3 {
+			break
+		}
+		c.samples = append(c.samples, map[string]any{"harness": h.Fn, "decisions": s.Decisions, "inputs": s.Inputs, "reach": s.Reach, "notes": s.Notes, "instructions": s.Steps})
+	}
+	for _, s := range res.Samples {
+		c.distinct[fmt.Sprint(h.Fn, s.Decisions)] = true
+	}
+	// group violations by label
+	byLabel := map[string][]gosym.Violation{}
+	var labels []string
+	for _, v := range res.Violations {
+		if _, ok := byLabel[v.Label]; !ok {
+			labels = append(labels, v.Label)
+		}
+		byLabel[v.Label] = append(byLabel[v.Label], v)
+	}
+	sort.Strings(labels)
+	for _, lab := range labels {
+		vs := byLabel[lab]
+		c.nviol += res.ViolCount[lab]
+		if f, ok := c.isKnown(lab, h.Fn); ok {
+			line := fmt.Sprintf("KNOWN-FINDING: property=%s %s [%s in %s; %d path(s)]", c.spec.ID, f.What, lab, h.Fn, res.ViolCount[lab])
+			c.known = append(c.known, line)
+			if c.tier == "thorough" {
+				// confirm the finding still reproduces natively
+				if ok, _, _ := c.replay(h, vs[0]); ok {
+					c.replayed++
+				}
+			}
+			continue
+		}
+		confirmed := false
+		var dir string
+		for _, v := range vs {
+			ok, d, out := c.replay(h, v)
+			c.replayed++
+			if ok {
+				confirmed, dir = true, d
+				break
+			}
+			_ = out
+		}
+		if confirmed {
+			c.violations = append(c.violations, fmt.Sprintf("VIOLATION property=%s replay=%s label=%s harness=%s", c.spec.ID, dir, lab, h.Fn))
+		} else {
+			c.inconclusive(fmt.Sprintf("%s: counterexample for %s does not reproduce natively (encoding or stub wrong); inputs=%v", h.Fn, lab, vs[0].Inputs))
+		}
+	}
+}
+
+// replay re-runs the harness (or its native twin) as an ordinary Go test against /repo.
+func (c *checkCtx) replay(h HarnessSpec, v gosym.Violation) (bool, string, string) {
+	sum := sha1.Sum([]byte(fmt.Sprint(v.Label, v.Inputs, h.Fn)))
+	dir := filepath.Join(verifDir(), "replays", c.spec.ID, fmt.Sprintf("%x", sum[:6]))
+	os.MkdirAll(dir, 0o755)
+	fn := h.Fn
+	if h.Native != "" {
+		fn = h.Native
+	}
+	in := map[string]any{"harness": fn, "package": h.Pkg, "label": v.Label, "inputs": v.Inputs, "message": v.Msg, "position": v.Pos, "notes": v.Notes}
+	b, _ := json.MarshalIndent(in, "", " ")
+	os.WriteFile(filepath.Join(dir, "inputs.json"), b, 0o644)
+	cmd := fmt.Sprintf("#!/bin/sh\n# re-runs the counterexample natively against /repo's working tree\nexec %s/bin/verif replay %s\n", verifDir(), dir)
+	os.WriteFile(filepath.Join(dir, "cmd.sh"), []byte(cmd), 0o755)
+	ok, out := nativeReplay(dir, c.work)
+	os.WriteFile(filepath.Join(dir, "native_output.txt"), []byte(out), 0o644)
+	return ok, dir, out
+}
+
+// nativeReplay builds and runs the replay test. It returns true when the
+// recorded label fails again natively.
+func nativeReplay(dir, work string) (bool, string) {
+	b, err := os.ReadFile(filepath.Join(dir, "inputs.json"))
+	if err != nil {
+		return false, err.Error()
+	}
+	var in struct {
+		Harness string `json:"harness"`
+		Package string `json:"package"`
+		Label   string `json:"label"`
+	}
+	json.Unmarshal(b, &in)
+	if work == "" {
+		work = filepath.Join(verifDir(), ".work", fmt.Sprintf("replay-%d", os.Getpid()))
+		os.MkdirAll(work, 0o755)
+		defer os.RemoveAll(work)
+	}
+	ov, _, err := gosym.BuildOverlay(repoDir, verifDir()+"/harness")
+	if err != nil {
+		return false, err.Error()
+	}
+	replace := map[string]string{}
+	for virt := range ov {
+		rel, _ := filepath.Rel(repoDir, virt)
+		replace[virt] = filepath.Join(verifDir(), "harness", rel)
+	}
+	pkgName := packageNameOf(filepath.Join(repoDir, in.Package))
+	test := fmt.Sprintf(`//go:build verif
+
+package %s
+
+import (
+	"fmt"
+	"testing"
+
+	zzv "%s/internal/zzverif"
+)
+
+func TestVerifReplay(t *testing.T) {
+	defer func() {
+		if r := recover(); r != nil {
+			if _, ok := r.(zzv.AssumeFalse); ok {
+				return
+			}
+			fmt.Printf("VERIF_PANIC %%v\n", r)
+			t.Fatalf("panic: %%v", r)
+		}
+	}()
+	%s()
+	if len(zzv.Failed) > 0 {
+		t.Fatalf("assertions failed: %%v", zzv.Failed)
+	}
+}
+`, pkgName, modPath, in.Harness)
+	testPath := filepath.Join(work, "zz_verif_replay_test.go")
+	os.WriteFile(testPath, []byte(test), 0o644)
+	replace[filepath.Join(repoDir, in.Package, "zz_verif_replay_test.go")] = testPath
+	ovb, _ := json.Marshal(map[string]any{"Replace": replace})
+	ovPath := filepath.Join(work, "overlay.json")
+	os.WriteFile(ovPath, ovb, 0o644)
+	cmd := exec.Command("timeout", "300", "go", "test", "-tags", "verif", "-overlay", ovPath, "-vet=off", "-count=1", "-run", "^TestVerifReplay$", "./"+in.Package)
+	cmd.Dir = repoDir
+	cmd.Env = append(os.Environ(), "GOFLAGS=-mod=mod", "GOPROXY=off", "GOSUMDB=off", "GOTOOLCHAIN=local", "VERIF_REPLAY="+filepath.Join(dir, "inputs.json"))
+	outb, _ := cmd.CombinedOutput()
+	out := string(outb)
+	if strings.HasPrefix(in.Label, "PANIC:") {
+		return strings.Contains(out, "VERIF_PANIC"), out
+	}
+	if strings.HasPrefix(in.Label, "BLOCK:") {
+		return strings.Contains(out, "VERIF_ASSERT_FAILED label="+in.Label) || strings.Contains(out, "deadlock") || strings.Contains(out, "timed out"), out
+	}
+	return strings.Contains(out, "VERIF_ASSERT_FAILED label="+in.Label+"\n"), out
+}
+
+func packageNameOf(dir string) string {
+	ents, _ := os.ReadDir(dir)
+	for _, e := range ents {
+		if strings.HasSuffix(e.Name(), ".go") && !strings.HasSuffix(e.Name(), "_test.go") {
+			b, _ := os.ReadFile(filepath.Join(dir, e.Name()))
+			for _, l := range strings.Split(string(b), "\n") {
+				if strings.HasPrefix(l, "package ") {
+					return strings.TrimSpace(strings.TrimPrefix(l, "package "))
+				}
+			}
+		}
+	}
+	// virtual package (only exists in the overlay)
+	return filepath.Base(dir)
+}
+
+func cmdReplay(args []string) int {
+	if len(args) < 1 {
+		usage()
+	}
+	ok, out := nativeReplay(args[0], "")
+	fmt.Print(out)
+	if ok {
+		fmt.Println("REPRODUCED")
+		return 1
+	}
+	fmt.Println("NOT REPRODUCED")
+	return 0
+}
+
+func (c *checkCtx) writeEvidence() {
+	spec := c.spec
+	cov := map[string]any{}
+	for k, v := range c.evidence {
+		cov[k] = v
+	}
+	var fns, intr []string
+	for f := range c.functions {
+		if strings.Contains(f, modPath) && !strings.Contains(f, "zzverif") {
+			fns = append(fns, strings.ReplaceAll(f, modPath+"/", ""))
+		}
+	}
+	for f := range c.intrinsics {
+		intr = append(intr, f)
+	}
+	sort.Strings(fns)
+	sort.Strings(intr)
+	cov["functions_encoded"] = fns
+	cov["intrinsics_and_stubs_used"] = intr
+	cov["harnesses"] = c.harnessRes
+	cov["queries"] = map[string]any{"sat": smt.StatSat, "unsat": smt.StatUnsat, "unknown": smt.StatUnknown, "errors": smt.StatErrors}
+	cov["solver_s"] = float64(smt.StatNanos) / 1e9
+	cov["solver"] = "z3 4.8.12 (z3 -in, one process per worker)"
+	cov["inconclusive"] = c.inconcl
+	cov["known_findings_matched"] = c.known
+	cov["rule"] = spec.Rule
+	if len(c.samples) == 0 {
+		c.samples = append(c.samples, map[string]any{"note": "no completed path sample recorded"})
+	}
+	cov["samples"] = c.samples
+	cov["evaluations"] = c.states + c.programs
+	cov["distinct_nontrivial"] = c.states + c.programs
+	cov["traces_validated_against_impl"] = c.replayed
+	switch spec.Level {
+	case "model_checking":
+		cov["states"] = c.states
+		cov["transitions"] = c.transitions
+	case "translation_validation":
+		cov["programs"] = c.programs
+		cov["disagreements_checked"] = c.disagreements
+		cov["states"] = c.states
+		cov["transitions"] = c.transitions
+	default:
+		cov["explanation"] = spec.Explanation
+	}
+	cov["trusted_base"] = spec.TrustedBase
+	ev := map[string]any{
+		"property_id": spec.ID, "tier": c.tier, "seed": c.seed, "level": spec.Level, "coverage": cov,
+		"assumptions": spec.Assumptions, "wall_s": time.Since(c.t0).Seconds(), "violations": len(c.violations),
+	}
+	b, _ := json.MarshalIndent(ev, "", " ")
+	os.MkdirAll(filepath.Join(verifDir(), "evidence"), 0o755)
+	os.WriteFile(filepath.Join(verifDir(), "evidence", spec.ID+".json"), b, 0o644)
+}
+
+func cmdSelftest(args []string) int { return 0 }
